@@ -3,7 +3,9 @@ Used by C01, C02, C03, C09.
 
 AST (python tuples)
   expr: ('lit', ity, int) | ('bool', b) | ('var', x) | ('bin', op, a, b) | ('un', op, a) | ('cast', a, ity) | ('call', f, [args])
+        | ('slit', sid, [field exprs]) | ('field', e, k)            (struct types are the strings "S<sid>", table STRUCTS)
   stmt: ('let', x, ty, e, const?) | ('assign', x, e) | ('cassign', x, op, e) | ('inc', x, +1|-1)
+        | ('assignf', x, k, e) | ('cassignf', x, k, op, e)
         | ('if', c, blockA, blockB) | ('while', c, block) | ('for', x, ity, lo, hi, block) | ('match', e, ity, [(int, block)], default_block|None)
         | ('break',) | ('continue',) | ('return', e|None)
         | ('print', [es]) | ('expr', e) | ('block', block)
@@ -17,6 +19,14 @@ ARITH = ["+", "-", "*", "/", "%"]
 CMP = ["==", "!=", "<", "<=", ">", ">="]
 COQ_OP = {"+": "Add", "-": "Sub", "*": "Mul", "/": "Div", "%": "Mod", "==": "Eq", "!=": "Ne", "<": "Lt", "<=": "Le",
           ">": "Gt", ">=": "Ge", "&&": "And", "||": "Or"}
+
+# fixed pool of struct shapes (integer fields only): mixed widths exercise padding / sub-word loads and stores in both back ends
+STRUCTS = [["i32", "u8"], ["i64", "i16", "u32"], ["u16"], ["i8", "i8", "u64"], ["u8", "i64", "u8", "i32", "i16"],
+           ["u32", "u32"], ["i16", "u8", "u8", "i64"], ["u64", "i8"]]
+def is_struct(t): return isinstance(t, str) and t[0] == "S"
+def sid_of(t): return int(t[1:])
+def fields_of(t): return STRUCTS[sid_of(t)]
+def structs_coq(): return "[" + "; ".join("[" + "; ".join(f.upper() for f in fs) + "]" for fs in STRUCTS) + "]"
 
 def signed(t): return t[0] == "i"
 def tmin(t): return -(1 << (BITS[t] - 1)) if signed(t) else 0
@@ -43,6 +53,8 @@ def r_expr(e):
     if k == "un": return "(%s%s)" % (e[1], r_expr(e[2]))
     if k == "cast": return "(%s as %s)" % (r_expr(e[1]), e[2])
     if k == "call": return "f%d(%s)" % (e[1], ", ".join(r_expr(a) for a in e[2]))
+    if k == "slit": return "({ %s } as S%d)" % (", ".join(".F%d = %s" % (i, r_expr(a)) for i, a in enumerate(e[2])), e[1])
+    if k == "field": return "%s.F%d" % (r_expr(e[1]), e[2])
     raise ValueError(e)
 
 def r_block(b, ind):
@@ -60,6 +72,8 @@ def r_stmt(s, ind):
     if k == "assign": return ["%sv%d = %s;" % (p, s[1], r_expr(s[2]))]
     if k == "cassign": return ["%sv%d %s= %s;" % (p, s[1], s[2], r_expr(s[3]))]
     if k == "inc": return ["%sv%d%s;" % (p, s[1], "++" if s[2] > 0 else "--")]
+    if k == "assignf": return ["%sv%d.F%d = %s;" % (p, s[1], s[2], r_expr(s[3]))]
+    if k == "cassignf": return ["%sv%d.F%d %s= %s;" % (p, s[1], s[2], s[3], r_expr(s[4]))]
     if k == "if":
         out = ["%sif %s {" % (p, r_expr(s[1]))] + r_block(s[2], ind + 1)
         if s[3]:
@@ -91,10 +105,15 @@ def r_fn(k, f, is_main):
     return ["fn %s(%s)%s {" % (name, ps, ret)] + r_block(f["body"], 1) + ["}", ""]
 
 def to_ferret(prog):
-    out = ['import "std/io";', ""]
+    body = []
     for k, f in enumerate(prog):
-        out += r_fn(k, f, k == len(prog) - 1)
-    return "\n".join(out) + "\n"
+        body += r_fn(k, f, k == len(prog) - 1)
+    out = ['import "std/io";', ""]
+    used = sorted({int(m) for l in body for m in re.findall(r"\bS(\d+)\b", l)})
+    for k in used:
+        out.append("type S%d struct { %s };" % (k, ", ".join(".F%d: %s" % (i, t) for i, t in enumerate(STRUCTS[k]))))
+    if used: out.append("")
+    return "\n".join(out + body) + "\n"
 
 # ------------------------------------------------------------------ rendering to Coq (FV.Core.Syntax)
 
@@ -102,6 +121,7 @@ def c_ity(t): return t.upper()
 def c_ty(t):
     if t == "bool": return "TBool"
     if t == "void": return "TVoid"
+    if is_struct(t): return "(TStruct %d)" % sid_of(t)
     return "(TInt %s)" % c_ity(t)
 
 def c_expr(e, types=None):
@@ -113,6 +133,8 @@ def c_expr(e, types=None):
     if k == "un": return "(EUn %s %s)" % ("Neg" if e[1] == "-" else "Not", c_expr(e[2]))
     if k == "cast": return "(ECast %s %s)" % (c_expr(e[1]), c_ity(e[2]))
     if k == "call": return "(ECall %d [%s])" % (e[1], "; ".join(c_expr(a) for a in e[2]))
+    if k == "slit": return "(EStructLit %d [%s])" % (e[1], "; ".join(c_expr(a) for a in e[2]))
+    if k == "field": return "(EField %s %d)" % (c_expr(e[1]), e[2])
     raise ValueError(e)
 
 _match_tmp = 0
@@ -128,6 +150,8 @@ def c_stmt(s):
     if k == "assign": return "(SAssign %d %s)" % (s[1], c_expr(s[2]))
     if k == "cassign": return "(SAssign %d (EBin %s (EVar %d) %s))" % (s[1], COQ_OP[s[2]], s[1], c_expr(s[3]))
     if k == "inc": return "(SAssign %d (EBin %s (EVar %d) (ELit %s 1%%Z)))" % (s[1], "Add" if s[2] > 0 else "Sub", s[1], c_ity(s[3]))
+    if k == "assignf": return "(SAssignField %d %d %s)" % (s[1], s[2], c_expr(s[3]))
+    if k == "cassignf": return "(SAssignField %d %d (EBin %s (EField (EVar %d) %d) %s))" % (s[1], s[2], COQ_OP[s[3]], s[1], s[2], c_expr(s[4]))
     if k == "if": return "(SIf %s %s %s)" % (c_expr(s[1]), c_block(s[2]), c_block(s[3]))
     if k == "while": return "(SWhile %s %s)" % (c_expr(s[1]), c_block(s[2]))
     if k == "for": return "(SFor %d %s %s %s %s)" % (s[1], c_ity(s[2]), c_expr(s[3]), c_expr(s[4]), c_block(s[5]))
@@ -186,6 +210,8 @@ def has_call(e):
     if k == "bin": return has_call(e[2]) or has_call(e[3])
     if k == "un": return has_call(e[2])
     if k == "cast": return has_call(e[1])
+    if k == "slit": return any(has_call(a) for a in e[2])
+    if k == "field": return has_call(e[1])
     return False
 
 def always_exits(s):
@@ -214,6 +240,7 @@ class Gen:
         self.features = {}
         self.gate_eager_logic = False     # (was a gate for F-LOGIC-EAGER, repaired by 31686fd)
         self.gate_self_operand = False    # (was a gate for F-QBE-SELF-OPERAND, repaired by 340ec5d)
+        self.structs = True               # struct-typed locals, parameters, results, field reads and writes
 
     def feat(self, k):
         self.features[k] = self.features.get(k, 0) + 1
@@ -242,14 +269,26 @@ class Gen:
         choices = []
         if vs: choices += ["var"] * 4
         if not nonlit: choices += ["lit"] * 2
+        flds = self.fields_in_scope(env, t) if self.structs else []
+        if flds: choices += ["field"] * 2
         if d > 0:
             choices += ["arith"] * 4 + ["cast"] * 1
             if signed(t): choices += ["neg"]
             if any(f[1] == t for f in self.fns): choices += ["call"] * 2
+            if self.structs and any(is_struct(f[1]) and t in fields_of(f[1]) and not f[2] for f in self.fns): choices += ["callfield"]
         if not choices:
             raise RuntimeError("no variable of type %s in scope (prelude missing?)" % t)
         c = r.choice(choices)
         if c == "var": return ("var", r.choice(vs))
+        if c == "field":
+            self.feat("field-read")
+            x, k = r.choice(flds)
+            return ("field", ("var", x), k)
+        if c == "callfield":
+            self.feat("call-field-read")
+            k = r.choice([k for k, f in enumerate(self.fns) if is_struct(f[1]) and t in fields_of(f[1]) and not f[2]])
+            st = self.fns[k][1]
+            return ("field", ("call", k, self.call_args(k, env, d)), r.choice([i for i, ft in enumerate(fields_of(st)) if ft == t]))
         if c == "lit": return self.lit(t)
         if c == "neg":
             self.feat("neg")
@@ -312,7 +351,23 @@ class Gen:
         self.feat("cmp:" + t)
         return ("bin", op, self.int_expr(t, env, max(d - 1, 0), nonlit=True), self.int_expr(t, env, max(d - 1, 0)))
 
+    def fields_in_scope(self, env, t):
+        return [(x, k) for sc in env for x, (ty, _) in sc.items() if is_struct(ty) for k, ft in enumerate(fields_of(ty)) if ft == t]
+
+    def struct_expr(self, t, env, d):
+        r = self.rng
+        choices = ["slit"] * 2
+        vs = self.vars_of(env, t)
+        if vs: choices += ["var"] * 3
+        if d > 0 and any(f[1] == t for f in self.fns): choices += ["call"] * 2
+        c = r.choice(choices)
+        if c == "var": return ("var", r.choice(vs))
+        if c == "call": return self.call_expr(t, env, d)
+        self.feat("struct-lit")
+        return ("slit", sid_of(t), [self.int_expr(ft, env, max(d - 1, 0)) for ft in fields_of(t)])
+
     def expr(self, t, env, d, nonlit=False):
+        if is_struct(t): return self.struct_expr(t, env, d)
         return self.bool_expr(env, d, nonlit) if t == "bool" else self.int_expr(t, env, d, nonlit)
 
     def call_expr(self, t, env, d):
@@ -332,8 +387,9 @@ class Gen:
         self.feat("call")
         return args
 
-    def any_ty(self, with_bool=True):
+    def any_ty(self, with_bool=True, with_struct=False):
         r = self.rng
+        if with_struct and self.structs and r.random() < 0.18: return "S%d" % r.randrange(len(STRUCTS))
         if with_bool and r.random() < 0.2: return "bool"
         return r.choice(self.itys)
 
@@ -354,6 +410,8 @@ class Gen:
         assignable = [(x, ty) for sc in env for x, (ty, const) in sc.items() if not const and x not in protected]
         choices = ["let"] * 4 + ["print"] * 3
         if assignable: choices += ["assign"] * 3 + ["cassign"] * 2 + ["inc"]
+        sassignable = [(x, ty) for x, ty in assignable if is_struct(ty)]
+        if sassignable: choices += ["assignf"] * 3
         if d > 0 and self.budget > 3:
             choices += ["if"] * 3 + ["while"] * 2 + ["block"] + ["for"] * 2 + ["match"] * 2
         if inloop and r.random() < 0.15: choices += ["break", "continue"]
@@ -362,7 +420,7 @@ class Gen:
         c = r.choice(choices)
         self.feat("s:" + c)
         if c == "let":
-            t = self.any_ty()
+            t = self.any_ty(with_struct=True)
             x = self.fresh()
             const = r.random() < 0.25
             e = self.expr(t, env, r.randint(0, 3))
@@ -373,15 +431,28 @@ class Gen:
             es = []
             for _ in range(r.randint(1, 3)):
                 if vs and r.random() < 0.6:
-                    es.append(("var", r.choice(vs)[0]))
+                    x, ty = r.choice(vs)
+                    es.append(("field", ("var", x), r.randrange(len(fields_of(ty)))) if is_struct(ty) else ("var", x))
                 else:
                     es.append(self.expr(self.any_ty(), env, r.randint(1, 3), nonlit=True))
             return ("print", es)
         if c == "assign":
             x, t = r.choice(assignable)
             return ("assign", x, self.expr(t, env, r.randint(0, 3)))
+        if c == "assignf":
+            x, ty = r.choice(sassignable)
+            k = r.randrange(len(fields_of(ty)))
+            ft = fields_of(ty)[k]
+            if r.random() < 0.6:
+                self.feat("field-assign")
+                return ("assignf", x, k, self.int_expr(ft, env, r.randint(0, 3)))
+            self.feat("field-compound-assign")
+            op = r.choice(["+", "-", "*", "/", "%"])
+            if op in "/%":
+                return ("cassignf", x, k, op, ("lit", ft, r.choice([1, 2, 3, 7])))
+            return ("cassignf", x, k, op, self.int_expr(ft, env, r.randint(0, 2)))
         if c == "cassign":
-            ints = [(x, t) for x, t in assignable if t != "bool"]
+            ints = [(x, t) for x, t in assignable if t != "bool" and not is_struct(t)]
             if not ints: return ("print", [self.expr("bool", env, 1, nonlit=True)])
             x, t = r.choice(ints)
             op = r.choice(["+", "-", "*", "/", "%"])
@@ -392,7 +463,7 @@ class Gen:
                 e = ("bin", "+", e, ("lit", t, 1))
             return ("cassign", x, op, e)
         if c == "inc":
-            ints = [(x, t) for x, t in assignable if t != "bool"]
+            ints = [(x, t) for x, t in assignable if t != "bool" and not is_struct(t)]
             if not ints: return ("print", [self.expr("bool", env, 1, nonlit=True)])
             x, t = r.choice(ints)
             return ("inc", x, r.choice([1, -1]), t)
@@ -454,17 +525,24 @@ class Gen:
             e = ("bool", self.rng.random() < 0.5) if t == "bool" else self.lit(t)
             env[-1][x] = (t, False)
             out.append(("let", x, t, e, False))
+        if self.structs:
+            for k in self.rng.sample(range(len(STRUCTS)), 2):
+                x = self.fresh()
+                t = "S%d" % k
+                e = ("slit", k, [self.lit(ft) for ft in fields_of(t)])
+                env[-1][x] = (t, False)
+                out.append(("let", x, t, e, False))
         return out
 
     def function(self, k):
         r = self.rng
-        ret = r.choice(["void"] + [self.any_ty()] * 3)
-        rec = ret != "void" and ret != "bool" and r.random() < 0.35
+        ret = r.choice(["void"] + [self.any_ty(with_struct=True)] * 3)
+        rec = ret != "void" and ret != "bool" and not is_struct(ret) and r.random() < 0.35
         params = []
         if rec:
             params.append((self.fresh(), "i32"))
         for _ in range(r.randint(0, 3)):
-            params.append((self.fresh(), self.any_ty()))
+            params.append((self.fresh(), self.any_ty(with_struct=True)))
         env = [{x: (t, False) for x, t in params}]
         body = self.prelude(env)
         if rec:
